@@ -521,7 +521,174 @@ def measure (p : Program) : Nat :=
 def removeUnused (calls : Bool) (tops : List String) (p : Program) : Program :=
   removeLoop p calls tops (measure p + 1) p
 
+/-! ## remove an output parameter (remove_output_param.go) -/
+
+/-- the literal `null` as the driver spells literals (hex of the formatted text) -/
+def nullExp : Exp := .lit "6e756c6c"
+
+/-- Go `isCallRefTo`: a reference to output `o` (possibly projected) of a call
+of callable `x` in `pipe`.  A whole-call reference (`= CALL`) does not match. -/
+def isCallRefTo (pipe : Callable) (x o : String) (r : Ref) : Bool :=
+  r.kind == RefKind.call
+  && pipe.calls.any (fun k => k.id == r.id && k.decId == x)
+  && (match r.path with | h :: _ => h == o | [] => false)
+
+/-- Go `shouldRemoveExpCallRef`: the expression is such a reference, a split of
+one, or a one-element array / typed map holding one. -/
+def shouldRemove (isRef : Ref → Bool) : Exp → Bool
+  | .ref r => isRef r
+  | .split v => shouldRemove isRef v
+  | .arr (.cons _ h .nil) => shouldRemove isRef h
+  | .map false (.cons _ h .nil) => shouldRemove isRef h
+  | _ => false
+
+mutual
+  /-- Go `removeRefFromExp`: matching references become `null`; inside arrays and
+  typed maps the element is dropped, inside struct literals it becomes `null`. -/
+  def removeRefExp (isRef : Ref → Bool) : Exp → Exp
+    | .lit s => .lit s
+    | .ref r => if isRef r then nullExp else .ref r
+    | .split v => if shouldRemove isRef v then nullExp else .split (removeRefExp isRef v)
+    | .arr es => if shouldRemove isRef (.arr es) then nullExp else .arr (removeRefElems isRef false es)
+    | .map st es => if shouldRemove isRef (.map st es) then nullExp else .map st (removeRefElems isRef st es)
+    | .nil => .nil
+    | .cons k h t => .cons k (removeRefExp isRef h) (removeRefElems isRef false t)
+  def removeRefElems (isRef : Ref → Bool) (isStruct : Bool) : Exp → Exp
+    | .cons k h t =>
+      if shouldRemove isRef h then
+        (if isStruct then .cons k nullExp (removeRefElems isRef isStruct t) else removeRefElems isRef isStruct t)
+      else .cons k (removeRefExp isRef h) (removeRefElems isRef isStruct t)
+    | .lit s => .lit s
+    | .ref r => .ref r
+    | .split v => .split v
+    | .arr es => .arr es
+    | .map st es => .map st es
+    | .nil => .nil
+end
+
+inductive OutAction
+  | stageOut (x o : String)
+  | pipeOut (x o : String)
+  | inputs (pairs : List (String × String))
+  | retain (pipe : String) (r : Ref)
+  | modifier (pipe call : String) (r : Ref)
+  deriving Repr, DecidableEq
+
+/-- bindings up to (excluding) the wildcard: the Go loops `break` at `*`. -/
+def mapUntilStar (f : Bind → Bind) : List Bind → List Bind
+  | [] => []
+  | b :: bs => if b.name = "*" then b :: bs else f b :: mapUntilStar f bs
+
+def setCallable (p : Program) (i : Nat) (c : Callable) : Program :=
+  { p with callables := p.callables.set i c }
+
+/-- Go `removeOutputParam`.  The state is the program with the rewritten binding
+expressions (the Go code writes them into the compiled AST at once, so the rest
+of the analysis sees them) plus the list of removals to perform.  A return
+binding that only forwards the removed output makes the enclosing pipeline's
+output disappear too (recursion; `fuel` bounds it). -/
+def removeOutputWalk : Nat → String → String → Program × List OutAction → Program × List OutAction
+  | 0, _, _, st => st
+  | fuel + 1, x, o, (p, acts) =>
+    match p.find? x with
+    | none => (p, acts)
+    | some xc =>
+      let acts :=
+        if xc.isPipe then
+          acts ++ [OutAction.pipeOut x o,
+                   OutAction.inputs (removeInputClosure p (closureFuel p)
+                     ((unboundInputs p xc [o] []).map (fun i => (x, i))) [])]
+        else acts ++ [OutAction.stageOut x o]
+      -- visit every pipeline, by position, always reading the current state
+      (List.range p.callables.length).foldl (fun (st : Program × List OutAction) i =>
+        match st.1.callables[i]? with
+        | none => st
+        | some pipe =>
+          if !pipe.isPipe then st else
+          let isRef := isCallRefTo pipe x o
+          let acts := st.2 ++ (pipe.retain.filter isRef).map (OutAction.retain pipe.name)
+          let acts := acts ++ pipe.calls.flatMap (fun k =>
+            (k.mods.filterMap (fun b => match b.exp with
+              | .ref r => if isRef r then some (OutAction.modifier pipe.name k.id r) else none
+              | _ => none)))
+          let calls := pipe.calls.map (fun k =>
+            { k with binds := mapUntilStar (fun b => { b with exp := removeRefExp isRef b.exp }) k.binds })
+          let p1 := setCallable st.1 i { pipe with calls := calls }
+          -- return bindings, one at a time (a recursive removal may rewrite later ones)
+          (List.range pipe.ret.length).foldl (fun (st : Program × List OutAction) j =>
+            match st.1.callables[i]? with
+            | none => st
+            | some cur =>
+              match cur.ret[j]? with
+              | none => st
+              | some b =>
+                if (cur.ret.take j).any (·.name == "*") || b.name == "*" then st
+                else if shouldRemove isRef b.exp then removeOutputWalk fuel cur.name b.name st
+                else
+                  (setCallable st.1 i { cur with ret := cur.ret.set j { b with exp := removeRefExp isRef b.exp } }, st.2))
+            (p1, acts))
+        (p, acts)
+
+def removeFirstRef (r : Ref) : List Ref → List Ref
+  | [] => []
+  | x :: xs => if x = r then xs else x :: removeFirstRef r xs
+
+def removeFirstModRef (r : Ref) : List Bind → List Bind
+  | [] => []
+  | b :: bs => if b.exp = .ref r then bs else b :: removeFirstModRef r bs
+
+def onFirstCall (id : String) (f : Call → Call) : List Call → List Call
+  | [] => []
+  | c :: cs => if c.id = id then f c :: cs else c :: onFirstCall id f cs
+
+def applyOutAction (p : Program) : OutAction → Program
+  | .stageOut x o => { p with callables := p.callables.map fun c =>
+      if c.name = x && !c.isPipe then { c with outs := removeFirstOut o c.outs, sretain := removeFirstStr o c.sretain } else c }
+  | .pipeOut x o => { p with callables := p.callables.map fun c =>
+      if c.name = x && c.isPipe then removeOutsOf [o] c else c }
+  | .inputs pairs => removeInputs pairs p
+  | .retain pipe r => { p with callables := p.callables.map fun c =>
+      if c.name = pipe && c.isPipe then { c with retain := removeFirstRef r c.retain } else c }
+  | .modifier pipe call r => { p with callables := p.callables.map fun c =>
+      if c.name = pipe && c.isPipe then
+        { c with calls := onFirstCall call (fun k => { k with mods := removeFirstModRef r k.mods }) c.calls }
+      else c }
+
+def outFuel (p : Program) : Nat :=
+  p.callables.foldl (fun n c => n + c.outs.length + 1) 1
+
+def removeOutput (x o : String) (p : Program) : Program :=
+  match p.find? x with
+  | none => p
+  | some _ =>
+    let (p', acts) := removeOutputWalk (outFuel p) x o (p, [])
+    acts.foldl applyOutAction p'
+
 /-! ## specification vocabulary (used by Props/C19.lean) -/
+
+/-- no binding, modifier, return or retain of any pipeline refers to output `o`
+of a call of `x` (whole-call references `= CALL` do not count: the Go code
+does not look at them either). -/
+def outputUnreferenced (x o : String) (p : Program) : Bool :=
+  p.callables.all fun pipe =>
+    !pipe.isPipe ||
+    (let ok (e : Exp) : Bool := (refs e).all (fun r => !isCallRefTo pipe x o r)
+     pipe.calls.all (fun k => k.binds.all (fun b => ok b.exp) && k.mods.all (fun b => ok b.exp))
+     && pipe.ret.all (fun b => ok b.exp)
+     && pipe.retain.all (fun r => !isCallRefTo pipe x o r))
+
+/-- what removing an unreferenced output amounts to: the parameter itself (for a
+stage also its retain entry; for a pipeline also its return binding and the
+inputs that this leaves unbound, with their bindings in callers). -/
+def removeOutputPlain (x o : String) (p : Program) : Program :=
+  match p.find? x with
+  | none => p
+  | some xc =>
+    if xc.isPipe then
+      applyOutAction (applyOutAction p (OutAction.pipeOut x o))
+        (OutAction.inputs (removeInputClosure p (closureFuel p) ((unboundInputs p xc [o] []).map (fun i => (x, i))) []))
+    else applyOutAction p (OutAction.stageOut x o)
+
 
 /-- all call references occurring in a pipeline (bindings, modifiers, returns, retains) -/
 def callRefIdsOf (c : Callable) : List String :=
